@@ -237,6 +237,48 @@ def buffer_rules(fb, R):
             'of nested buffers do not expect)')
     # growth happens before the address is taken: covered by STALE-L on the local derived from m_data
 
+    # B3: the capacity handed to grow() covers written + requested: every comparison of the new-capacity local that feeds
+    # grow() is against `m_written + <request parameter>` (not m_committed, not the bare request)
+    n_cov = 0
+    for fn in methods:
+        grows = [n for n in fn.all_nodes() if n.get('k') == 'call' and n.get('q') == BUF + '::grow' and n.get('args')]
+        for g in grows:
+            rv = fn.root_var(g['args'][0])
+            if rv is None or rv[0] != 'var':
+                continue
+            d = rv[1]
+            pd = {p['d'] for p in fn.params}
+            if d in pd:
+                continue  # grow(size) forwarded from a parameter: nothing to decide here
+            cmps = []
+            for b in fn.blocks.values():
+                if 'cond' not in b:
+                    continue
+                c = fn.sn(b['cond'])
+                if c is None or c.get('k') != 'binop' or c['op'] not in ('>', '<', '>=', '<='):
+                    continue
+                l, r = fn.sn(c['lhs']), fn.sn(c['rhs'])
+                if r is not None and r.get('k') == 'var' and r.get('d') == d and c['op'] in ('>', '>='):
+                    cmps.append((c, c['lhs']))
+                elif l is not None and l.get('k') == 'var' and l.get('d') == d and c['op'] in ('<', '<='):
+                    cmps.append((c, c['rhs']))
+            for (c, other) in cmps:
+                n_cov += 1
+                o = fn.sn(other)
+                ok = False
+                if o is not None and o.get('k') == 'binop' and o['op'] == '+':
+                    a, b2 = o['lhs'], o['rhs']
+                    fa, fb = this_field(fn, a), this_field(fn, b2)
+                    va, vb = fn.sn(a), fn.sn(b2)
+                    pa = va is not None and va.get('k') == 'var' and va.get('d') in pd
+                    pb = vb is not None and vb.get('k') == 'var' and vb.get('d') in pd
+                    ok = (fa == 'm_written' and pb) or (fb == 'm_written' and pa)
+                R.check(ok, 'B3-growth-target-covers-request', '%s#new-capacity-test' % fn.q, fn.loc(c['id']),
+                        'the capacity computed for grow() is compared with `%s`; it must cover m_written + the requested size (all bytes written so far, '
+                        'committed or not, plus the new request), otherwise the reserved range ends beyond the new block' % fn.expr(other))
+    if n_cov == 0:
+        R.note('B3-growth-target-covers-request: no new-capacity comparison found (capacity computed without a loop): not decided')
+
 
 # ------------------------------------------------------------------------------------------------ size conservation
 
@@ -650,6 +692,7 @@ def run(ctx):
     R.expect('B3-grow-copies-old-content', 1)
     R.expect('B3-grow_internal-order', 2)
     R.expect('B3-grow_internal-needs-committed-data', 1)
+    R.expect('B3-growth-target-covers-request', 1)
     R.expect('S1-add_size-self-and-ancestors', 1)
     R.expect('S2-builder-ctor-accounts-initial-size', 1)
     R.expect('S3-ctor-own-size', 6)
